@@ -368,6 +368,12 @@ impl Hypercore {
 
         let byte_range = self.byte_range(index, None).await?;
 
+        if byte_range.length == 0 {
+            // An empty block occupies no bytes of the data store; its offset can lie beyond the
+            // end of the store after a clear of the preceding blocks truncated it.
+            return Ok(Some(vec![]));
+        }
+
         // TODO: Generalize Either response stack
         let data = match self.block_store.read(&byte_range, None) {
             Either::Right(value) => value,
